@@ -297,7 +297,7 @@ def conservation_validator(prog: Program, rep, RID: str):
     outer = [s for s in f.node.body if isinstance(s, ast.For)]
     if len(outer) != 1 or norm(outer[0].iter) not in (f"{G}.nodes()", f"{G}.nodes", G) or not isinstance(outer[0].target, ast.Name):
         raise AnalysisError("check_flow_conservation: loop over all nodes of the graph not found")
-    lp = outer[0]
+    lp = _normalised_node_loop(outer[0])
     V = lp.target.id
     # 1. exemptions
     allowed = {f"{G}.out_degree({V}) == 0", f"{G}.in_degree({V}) == 0"}
@@ -423,6 +423,54 @@ def conservation_validator(prog: Program, rep, RID: str):
         rep.ok(RID, key + ":accept", "True is returned only after every node was examined", f.loc(last))
     else:
         rep.violation(RID, key + ":accept", "True can be returned before every node was examined", f.loc(trues[0] if trues else f.node))
+
+
+def _normalised_node_loop(lp: ast.For) -> ast.For:
+    """The loop over the nodes in the shape the rule reads (a copy; line numbers are kept):
+    `if c: A; continue` followed by R  ->  `if c: A else: R`  (a pure `if c: continue` skip is left alone), and locals that are assigned once
+    in the loop and only name a value (no accumulators, no loop targets) are written out in the tests that use them."""
+    import copy
+    from rules.common import substitute_locals
+    lp = copy.deepcopy(lp)
+
+    def fold(block):
+        out = []
+        for i, st in enumerate(block):
+            if isinstance(st, ast.If) and not st.orelse and len(st.body) > 1 and isinstance(st.body[-1], ast.Continue) and \
+                    not any(isinstance(n, (ast.Continue, ast.Break)) for b_ in st.body[:-1] for n in ast.walk(b_)):
+                new_if = ast.copy_location(ast.If(test=st.test, body=fold(st.body[:-1]), orelse=fold(block[i + 1:])), st)
+                out.append(new_if)
+                return out
+            out.append(st)
+        return out
+    lp.body = fold(lp.body)
+    counts: Dict[str, int] = {}
+    vals: Dict[str, ast.AST] = {}
+    banned = set()
+    for n in ast.walk(lp):
+        if isinstance(n, ast.Assign) and len(n.targets) == 1 and isinstance(n.targets[0], ast.Name):
+            counts[n.targets[0].id] = counts.get(n.targets[0].id, 0) + 1
+            vals[n.targets[0].id] = n.value
+        elif isinstance(n, ast.AugAssign) and isinstance(n.target, ast.Name):
+            banned.add(n.target.id)
+        elif isinstance(n, (ast.For, ast.comprehension)):
+            banned |= {x.id for x in ast.walk(n.target) if isinstance(x, ast.Name)}
+        elif isinstance(n, ast.Assign):
+            banned |= {x.id for t in n.targets for x in ast.walk(t) if isinstance(x, ast.Name)}
+    defs = {k: v for k, v in vals.items() if counts[k] == 1 and k not in banned}
+    if defs:
+        for n in ast.walk(lp):
+            if isinstance(n, ast.If):
+                for _ in range(4):
+                    n.test = substitute_locals(n.test, defs)
+
+        def drop(block):
+            return [st for st in block if not (isinstance(st, ast.Assign) and len(st.targets) == 1 and isinstance(st.targets[0], ast.Name) and st.targets[0].id in defs)]
+        for n in ast.walk(lp):
+            for fld in ("body", "orelse"):
+                if isinstance(getattr(n, fld, None), list) and isinstance(n, (ast.If, ast.For)):
+                    setattr(n, fld, drop(getattr(n, fld)) or [ast.copy_location(ast.Pass(), n)])
+    return lp
 
 
 def enclosing_tests_in(root, node):
